@@ -189,6 +189,18 @@ def run_check(prop, P, args):
             known_hits.append(k)
             bfailure = None
 
+    # findings reported by the run-time channel (e.g. a function that is known not to work at all): each must match an
+    # open entry of known_findings.json (same property, kind, signature), otherwise it is a violation like any other
+    new_findings = []
+    for fnd in (bstats or {}).get("findings", []):
+        k = matches_known("runtime", fnd.get("signature"), None)
+        if k:
+            known_hits.append(k)
+        else:
+            new_findings.append(fnd)
+    if new_findings and bfailure is None:
+        bfailure = {"kind": "finding", "observed": {"error": new_findings[0]["what"]}, "signature": new_findings[0]["signature"]}
+
     undecided = []
     if exit_code != 3:
         if bfailure is not None:
